@@ -80,3 +80,20 @@ RUST_MODELS = {
     "ipv8_rust_tunnels.PublicKey": "contracts.common.RustPublicKeyModel",
     "ipv8_rust_tunnels.PrivateKey": "contracts.common.RustPrivateKeyModel",
 }
+
+
+def clean_dict():
+    """a Peer's address table that is not dirty (so that Peer.address returns _address without recomputation)"""
+    from ipv8.peer import DirtyDict
+    d = DirtyDict()
+    d.dirty = False
+    return d
+
+
+def PEER_OBJ(**extra):
+    """a Peer with symbolic key, mid and one IPv4 address"""
+    f = dict(public_key=OBJ("ipv8/keyvault/public/openssl.py::OpenSSLPK", ec=OBJ("contracts/common.py::RustPublicKeyModel", bin=BYTES)),
+             mid=BYTES_N(20), _address=NTUPLE("ipv8/messaging/interfaces/udp/endpoint.py::UDPv4Address", STR, INT),
+             _addresses=EXPR("clean_dict()"))
+    f.update(extra)
+    return OBJ("ipv8/peer.py::Peer", **f)
